@@ -40,6 +40,7 @@ import (
 // transactions and a scripted fake engine.  Every block is decomposed, for the model, into the same
 // operation vocabulary as layer K: a.blockstart, hook.lock.begin, tx.ethblock, tx.*, a.end.
 type appStream struct {
+	forceExpiring bool // signRelayerTx: sign as the proposer with timeout height = last committed height
 	deadHalts int // consecutive blocks that failed without a scripted engine fault
 	*worldStream
 	sim     *appsim.Sim
@@ -126,6 +127,9 @@ func (s *appStream) boot(r *tr.Rng) {
 	cfg.LockingParams = func(p *lockingtypes.Params) {
 		p.SignedBlocksWindow, p.MaxMissedPerWindow, p.DowntimeJailDuration = win, maxMissed, jail
 		p.UnlockDuration, p.ExitingDuration, p.HalvingInterval = unlockD, exitD, halving
+	}
+	if strings.HasPrefix(s.profile, "app-proposal") {
+		cfg.MempoolMaxTxs = 10 // the node's default application mempool: the real PrepareProposal handler selects from it
 	}
 	if strings.HasPrefix(s.profile, "app-export") && r.Chance(35) {
 		// a young bitcoin side chain: voted hashes reach down to height 0 (an export lists tip+1 hashes)
@@ -343,7 +347,13 @@ func (s *appStream) signRelayerTx(r *tr.Rng, o *tr.Op, height int64, seqUsed map
 	opts := appsim.TxOpts{}
 	memo, sigok, seqok := "", true, true
 	timeout := uint64(0)
+	if s.forceExpiring {
+		// valid in every respect for the mempool of the last committed height, expired for the block being proposed
+		priv, signerAddr, cls = prop.Acc, prop.Addr, "/expires-at-proposal"
+	}
 	switch c := r.Intn(100); {
+	case s.forceExpiring:
+		timeout = uint64(height - 1)
 	case c < pick(guardy, 10, 2):
 		memo = tr.Pick(r, "hi", "x", "x", "a much longer memo than anybody would need")
 		opts.Memo, cls = memo, cls+fmt.Sprintf("/memo-len=%d", len(memo))
@@ -363,7 +373,7 @@ func (s *appStream) signRelayerTx(r *tr.Rng, o *tr.Op, height int64, seqUsed map
 	addr := sdk.AccAddress(priv.PubKey().Address())
 	_, base, hasAcc := s.sim.Account(addr)
 	seq := base + seqUsed[signerAddr]
-	if r.Chance(pick(guardy, 8, 2)) {
+	if r.Chance(pick(guardy, 8, 2)) && !s.forceExpiring {
 		seq, seqok, cls = seq+1+uint64(r.Intn(2)), false, cls+"/bad-sequence"
 	}
 	if !hasAcc {
@@ -727,6 +737,10 @@ func (s *appStream) genBlock(r *tr.Rng) {
 	if (strings.HasPrefix(s.profile, "app-proposal") || r.Chance(10)) && eb.Payload != nil && len(rawTxs) == 0 {
 		s.genProcess(r, proposerIdx, txs[0], ptxs, eb.Payload, ethCls == "", ethTimeout == uint64(height))
 	}
+	if strings.HasPrefix(s.profile, "app-proposal") && len(rawTxs) == 0 && r.Chance(40) {
+		sc2 := script
+		s.realPrepare(r, ptxs, &sc2)
+	}
 	// faults hit the two calls `Finalized` makes (DirectBuild does not consult faults)
 	if newStatus != "VALID" {
 		f := appsim.Fault{Method: appsim.MethodNewPayload, Status: newStatus}
@@ -986,6 +1000,124 @@ func flip(b []byte) []byte {
 		c[len(c)-1] ^= 1
 	}
 	return c
+}
+
+// realPrepare: the application's own PrepareProposal handler (x/goat/keeper/abci.go) builds the proposal of the node
+// (validator 0 holds the node key) from the application mempool, after this block's relayer transactions went through
+// CheckTx; the result then goes through ProcessProposal as every other validator runs it.  C08: whatever the mempool
+// holds, the handler answers, within the 16-transaction cap, and its proposal is accepted.  C19: no mempool content
+// makes the handler fail or hang.
+func (s *appStream) realPrepare(r *tr.Rng, ptxs []*pendingTx, script *appsim.BlockScript) {
+	sim := s.sim
+	height := sim.Height + 1
+	admitted, offered := 0, 0
+	for _, p := range ptxs {
+		if p.op.Kind == "tx.raw" {
+			continue
+		}
+		offered++
+		if code, _ := sim.CheckTx(p.raw); code == 0 {
+			admitted++
+		}
+	}
+	// a transaction that the mempool admits at the last committed height and that is expired for the block being built:
+	// the handler has to evict it and go on
+	expiring := 0
+	if v := s.rel.view(); s.members[v.rel.Proposer] != nil && r.Chance(45) {
+		var src *tr.Op
+		byProp := uint64(0)
+		for _, p := range ptxs {
+			if p.antePass && p.signer == v.rel.Proposer {
+				byProp++
+				if src == nil && p.op.Kind != "tx.raw" && p.op.Kind != "tx.generic" {
+					src = p.op
+				}
+			}
+		}
+		if src != nil {
+			s.forceExpiring = true
+			p2 := s.signRelayerTx(r, src, height, map[string]uint64{v.rel.Proposer: byProp})
+			s.forceExpiring = false
+			if p2 != nil {
+				if code, _ := sim.CheckTx(p2.raw); code == 0 {
+					expiring++
+				}
+			}
+		}
+	}
+	sim.Engine.ClearFaults()
+	sim.Engine.SetNext(script)
+	type res struct {
+		txs [][]byte
+		err error
+	}
+	done := make(chan res, 1)
+	go func() {
+		defer func() {
+			if e := recover(); e != nil {
+				done <- res{nil, fmt.Errorf("panic: %v", e)}
+			}
+		}()
+		txs, err := sim.Prepare(sim.ProposerAddr(0), nil)
+		done <- res{txs, err}
+	}()
+	po := tr.NewOp(fmt.Sprintf("prepare/offered=%d/admitted=%d/expiring=%d", offered, admitted, expiring), "a.prepare", "height", height, "offered", offered,
+		"admitted", admitted, "expiring", expiring)
+	var out res
+	select {
+	case out = <-done:
+	case <-time.After(25 * time.Second):
+		// the handler does not come back: the node is stuck building its proposal.  The goroutine cannot be stopped, so the
+		// stream ends here (the trace is complete up to this operation)
+		s.emit(po, "hang")
+		for _, l := range s.buf { // the operations of this block were not handed to the trace writer yet
+			fmt.Printf("%s\n=> %s\n", l.op.Line(), l.res)
+		}
+		os.Exit(0)
+	}
+	s.processed = true // the handler talked to the engine: let it settle before the block's own calls are logged
+	sim.EngineBarrier()
+	if out.err != nil {
+		s.emit(po, "err ;; "+world.Classify(out.err))
+		return
+	}
+	if len(out.txs) > 16 {
+		s.emit(po, fmt.Sprintf("err ;; %d transactions (cap 16)", len(out.txs)))
+		return
+	}
+	s.emit(po, fmt.Sprintf("ok ;; txs=%d", len(out.txs)))
+	// ... and every other validator checks it
+	eb, err := sim.DecodeEthBlockTx(out.txs[0])
+	if err != nil || eb.Payload == nil {
+		return
+	}
+	val := sim.Validators[0]
+	kinds, anteok := []string{"eth"}, []string{"1"}
+	for range out.txs[1:] {
+		kinds, anteok = append(kinds, "rel"), append(anteok, "1")
+	}
+	acc, perr := sim.Process(val.ConsAddr, out.txs)
+	if !acc {
+		sim.EngineBarrier()
+	}
+	honest := true
+	if _, _, l, derr := goattypes.DecodeRequests(eb.Payload.Requests); derr != nil || len(l.Gas) != 1 {
+		honest = false // the scripted execution layer misbehaved (fault class), not an honest build
+	}
+	o := tr.NewOp("process/real-prepare", "a.process", "honest", tr.B(honest), "height", height, "kinds", tr.StrList(kinds), "anteok", tr.StrList(anteok),
+		"proposer", tr.Hex(val.ConsAddr), "comet", tr.Hex(val.ConsAddr), "newstatus", "VALID")
+	payloadArgs(o, eb.Payload, false)
+	pres := "ok"
+	if perr != nil {
+		pres = "err ;; abci-error"
+	} else if !acc {
+		c := world.Classify(fmt.Errorf("%s", sim.RejectReason()))
+		if strings.HasPrefix(c, "engine") {
+			c = "engine"
+		}
+		pres = "err ;; " + c
+	}
+	s.emit(o, pres)
 }
 
 // genProcess: ProcessProposal on the honest proposal (ante-valid transactions only, as the real
